@@ -538,7 +538,7 @@ func (t *FnTrans) strLit(s string) string {
 }
 
 func (t *FnTrans) strLen() string {
-	return t.declareFun("str.len", []string{"Str"}, t.mode.idxSort())
+	return t.declareFun("gstr.len", []string{"Str"}, t.mode.idxSort())
 }
 
 func (t *FnTrans) constVal(c constant.Value, ty types.Type) Val {
